@@ -1,4 +1,132 @@
 package main
 
-func (h *harness) runRealOS()   {}
-func hammerChild(args []string) {}
+// Real-OS supplement (thorough tier only, supporting evidence): child processes (this binary re-executed
+// as `cacheput hammer …`) use the unmodified cache package on one real directory; some are SIGKILLed
+// at random times; afterwards a fresh process-level view (this process) runs the oracle.  No timing
+// assertions: the sleeps only spread the kill points.
+
+import (
+	"bytes"
+	"crypto/sha256"
+	"fmt"
+	"math/rand"
+	"os"
+	"os/exec"
+	"strconv"
+	"strings"
+	"syscall"
+	"time"
+
+	"github.com/rogpeppe/go-internal/cache"
+)
+
+const hammerIDs = 6
+
+func hammerPayload(id, ctr int, r *rand.Rand) []byte {
+	pad := r.Intn(3)
+	n := []int{0, 700, 90000}[pad]
+	return []byte(fmt.Sprintf("id=%d ctr=%d %s", id, ctr, strings.Repeat("x", n)))
+}
+
+// checkLookups runs the oracle over all ids; it returns descriptions of violations.
+func checkLookups(c *cache.Cache) []string {
+	var bad []string
+	for id := 0; id < hammerIDs; id++ {
+		data, e, err := c.GetBytes(actionID(100 + id))
+		if err == nil {
+			if sha256.Sum256(data) != [32]byte(e.OutputID) {
+				bad = append(bad, fmt.Sprintf("GetBytes(id%d): bytes do not hash to the OutputID", id))
+			}
+			if !bytes.HasPrefix(data, []byte(fmt.Sprintf("id=%d ", id))) {
+				bad = append(bad, fmt.Sprintf("GetBytes(id%d): foreign payload %q", id, trunc(string(data), 20)))
+			}
+		}
+		file, fe, ferr := c.GetFile(actionID(100 + id))
+		if ferr == nil {
+			fd, rerr := os.ReadFile(file)
+			if rerr == nil && int64(len(fd)) == fe.Size && sha256.Sum256(fd) != [32]byte(fe.OutputID) {
+				bad = append(bad, fmt.Sprintf("GetFile(id%d): file of the reported size with other bytes", id))
+			}
+		}
+	}
+	return bad
+}
+
+// hammerChild: `cacheput hammer <dir> <seed> <iterations>`.
+func hammerChild(args []string) {
+	if len(args) < 3 {
+		os.Exit(2)
+	}
+	seed, _ := strconv.ParseInt(args[1], 10, 64)
+	iters, _ := strconv.Atoi(args[2])
+	c, err := cache.Open(args[0])
+	if err != nil {
+		fmt.Println("ERROR", err)
+		os.Exit(2)
+	}
+	r := rand.New(rand.NewSource(seed))
+	for i := 0; i < iters; i++ {
+		id := r.Intn(hammerIDs)
+		if r.Intn(2) == 0 {
+			c.PutBytes(actionID(100+id), hammerPayload(id, i, r))
+		} else if bad := checkLookups(c); len(bad) > 0 {
+			fmt.Println("VIOLATION " + strings.Join(bad, "; "))
+			os.Exit(3)
+		}
+	}
+}
+
+func (h *harness) runRealOS() {
+	r := rand.New(rand.NewSource(h.seed*31 + 5))
+	self, err := os.Executable()
+	if err != nil {
+		h.res.Observations = append(h.res.Observations, "real-OS supplement skipped: "+err.Error())
+		return
+	}
+	rounds, kills, checked := 120, 0, 0
+	for round := 0; round < rounds; round++ {
+		dir, err := os.MkdirTemp(h.base, "real-")
+		if err != nil {
+			return
+		}
+		if _, err := cache.Open(dir); err != nil {
+			return
+		}
+		var cmds []*exec.Cmd
+		var outs []*bytes.Buffer
+		for k := 0; k < 4; k++ {
+			cmd := exec.Command(self, "hammer", dir, strconv.FormatInt(r.Int63(), 10), "150")
+			var b bytes.Buffer
+			cmd.Stdout = &b
+			if err := cmd.Start(); err != nil {
+				continue
+			}
+			cmds = append(cmds, cmd)
+			outs = append(outs, &b)
+		}
+		time.Sleep(time.Duration(2+r.Intn(40)) * time.Millisecond)
+		for k := 0; k < 2 && k < len(cmds); k++ {
+			cmds[k].Process.Signal(syscall.SIGKILL)
+			kills++
+		}
+		for k, cmd := range cmds {
+			cmd.Wait()
+			if s := outs[k].String(); strings.Contains(s, "VIOLATION") {
+				h.res.Violate("C11", fmt.Sprintf("real-os round %d seed %d", round, h.seed), strings.TrimSpace(s), "realos-concurrent-lookup")
+			}
+		}
+		c, err := cache.Open(dir)
+		if err == nil {
+			checked++
+			for _, b := range checkLookups(c) {
+				h.res.Violate("C12", fmt.Sprintf("real-os round %d seed %d", round, h.seed), "after SIGKILL of writers: "+b, "realos-after-kill")
+			}
+		}
+		os.RemoveAll(dir)
+	}
+	h.res.Distribution["realos:rounds"] = rounds
+	h.res.Distribution["realos:sigkills"] = kills
+	h.res.OracleChecked["C12"] += checked
+	h.res.OracleChecked["C11"] += checked
+	h.res.Observations = append(h.res.Observations, fmt.Sprintf("real-OS supplement: %d rounds of 4 child processes on a real directory, %d SIGKILLs at random times, oracle after each round: supporting evidence only", rounds, kills))
+}
